@@ -1472,7 +1472,7 @@ def levicivita(__n: int, dtype: DType = float) -> Array:
     :class:`Array`
     '''
 
-    return _Constant(numeric.levicivita(__n))
+    return _Constant(numeric.levicivita(__n, dtype))
 
 
 @nutils_dispatch
@@ -3736,9 +3736,10 @@ class __implementations__:
             axisa = axisb = axisc = axis
         a = _Transpose.to_end(a, axisa)
         b = _Transpose.to_end(b, axisb)
+        dtype = int if a.dtype in (bool, int) and b.dtype in (bool, int) else float # the cross product of integers is integer
         if a.shape[-1] == b.shape[-1] == 2:
-            return numpy.einsum('ij,...i,...j', levicivita(2), a, b)
+            return numpy.einsum('ij,...i,...j', levicivita(2, dtype), a, b)
         elif a.shape[-1] == b.shape[-1] == 3:
-            return _Transpose.from_end(numpy.einsum('ijk,...j,...k', levicivita(3), a, b), axisc)
+            return _Transpose.from_end(numpy.einsum('ijk,...j,...k', levicivita(3, dtype), a, b), axisc)
         else:
             raise ValueError('dimension must be 2 or 3')
